@@ -92,6 +92,7 @@ func faultOpts(prop string, thorough bool) (GenOpts, faultEmphasis) {
 		em.Kinds = []stopKind{stopFIN, stopRST, stopShortPacket, stopBadSeq, stopERR, stopERR, stopERR, stopEOF, stopCancel,
 			stopHandlerErr, stopMapperErr, stopMapperMiscount, stopUnsupportedEvent, stopInvalidEvent}
 	case "C07":
+		em.Bystander = true
 		em.ConnPhase = 10
 		em.MaxFaults = 3
 		o.BigOffsets = true
